@@ -348,6 +348,46 @@ theorem decode_types (b : Bytes) (f : TBI) (h : decode b = some f) :
     · exact absurd h (by simp)
     · injection h with h; subst h; rfl
 
+/-! ### what `TimeBucketInfo.Validate` (all three tests) guarantees -/
+
+theorem noEdgeNul_of_trimNul_fix (s : Str) (h : trimNul s = s) : noEdgeNul s := by
+  have := trimNul_noEdge s
+  rwa [h] at this
+
+/-- everything `Validate` does not look at: one name per type, byte-sized type numbers, a
+    description that fits (the server only writes two fixed ones), 64-bit integer fields -/
+structure Bounds (f : TBI) : Prop where
+  lenEq : f.names.length = f.types.length
+  types : ∀ t ∈ f.types, t < 256
+  desc : f.description.length ≤ descBytes ∧ noEdgeNul f.description
+  version : f.version < 2 ^ 64
+  year : f.year < 2 ^ 64
+  timeframe : f.timeframe < 2 ^ 64
+  recordType : f.recordType < 2 ^ 64
+  recordLength : f.recordLength < 2 ^ 64
+
+theorem validSchema_wf (f : TBI) (hv : validSchema ⟨true, true, true⟩ f = true) (hb : Bounds f) : WF f := by
+  simp only [validSchema, Bool.not_true, Bool.false_or, Bool.and_eq_true, decide_eq_true_eq, List.all_eq_true,
+    beq_iff_eq] at hv
+  obtain ⟨⟨hc, hn⟩, _⟩ := hv
+  exact { lenEq := hb.lenEq, count := hc,
+          names := fun s hs => ⟨(hn s hs).1, noEdgeNul_of_trimNul_fix s (hn s hs).2⟩,
+          types := hb.types, desc := hb.desc, version := hb.version, year := hb.year,
+          timeframe := hb.timeframe, recordType := hb.recordType, recordLength := hb.recordLength }
+
+theorem validSchema_daily (f : TBI) (hv : validSchema ⟨true, true, true⟩ f = true) (h0 : f.recordType = 0)
+    (hd : f.timeframe = dayNs) : f.recordLength + f.types.length ≤ headersize - (312 + maxElems * nameBytes) := by
+  simp only [validSchema, Bool.not_true, Bool.false_or, Bool.and_eq_true, decide_eq_true_eq, List.all_eq_true,
+    beq_iff_eq, h0, hd, typesOffset] at hv
+  obtain ⟨⟨hc, _⟩, hday⟩ := hv
+  have hmn : maxElems * nameBytes = 32768 := by decide
+  have hday' : (f.recordLength : Int) ≤ (headersize : Int) - ((312 + maxElems * nameBytes : Nat) : Int) - f.types.length := by
+    have h2 := hday
+    simp only [beq_self_eq_true, Bool.and_self, Bool.not_true, Bool.false_or] at h2
+    exact of_decide_eq_true h2
+  rw [hmn, headersize_eq] at hday' ⊢
+  omega
+
 /-! ### the witness of the January-1 counterexample (C15_cex_jan1) -/
 
 def wideCols : List (Str × Nat) := List.replicate 62 ([97], 14)
